@@ -32,7 +32,7 @@ namespace {
 struct GClient { int c; std::string tr; bool alive = true; std::vector<JV> fetch_ids; bool owner_like = false; bool authed = false; };
 
 struct Gen {
-	double p_exact_size = 0.02; size_t elems_hint = 0;
+	double p_exact_size = 0.02; size_t elems_hint = 0; double p_nul = 0.004; std::map<std::string, double> last_num;
 	Rng r; Plan p; uint64_t uid = 0; int next_client = 0; uint64_t idctr = 0, valctr = 0;
 	std::vector<GClient> cl;
 	std::vector<std::string> paths;
@@ -74,6 +74,7 @@ struct Gen {
 	}
 	JV next_id() {
 		idctr++;
+		if (r.chance(p_nul)) return JV::str(std::string("r") + std::to_string(idctr) + '\0' + "x");
 		if (r.chance(p_numid)) return JV::num((double)(1000 + idctr));
 		return JV::str("r" + std::to_string(idctr));
 	}
@@ -85,6 +86,7 @@ struct Gen {
 			JV a = JV::arr(); a.push(JV::num((double)valctr)); for (size_t i = 1; i < n; i++) a.push(JV::num((double)(i % 10)));
 			return a;
 		}
+		if (r.chance(p_nul)) return JV::str(std::string("nul") + '\0' + "inside" + std::to_string(valctr));   // an escaped NUL inside a string
 		// numbers that a conversion to int cannot tell apart (all in [7,8), or all beyond INT_MAX): still different values
 		if (r.chance(0.12)) return JV::num(r.chance(0.7) ? 7.0 + (double)(valctr % 1021) / 1024.0 : 3000000000.0 + (double)valctr);
 		switch (r.below(8)) {
@@ -272,7 +274,14 @@ struct Gen {
 			std::string path = existing_path(true, false);
 			// bias towards the owner
 			if (owner_of.count(path) && r.chance(0.8)) for (auto &c2 : cl) if (c2.c == owner_of[path] && c2.alive) { g = &c2; o.c = g->c; }
-			params.set("path", JV::str(path)); params.set("value", fresh_value()); msg = request("change", params);
+			params.set("path", JV::str(path));
+			{ JV nv = fresh_value();
+			  // now and then the new value is a number with the same integer part as the one before (1.25 -> 1.75): a different value all the same
+			  auto ln = last_num.find(path);
+			  if (ln != last_num.end() && r.chance(0.3)) { double fl = (double)(long long)ln->second; double cand = fl + (double)((valctr % 7) + 1) / 8.0; if (cand != ln->second) nv = JV::num(cand); }
+			  if (nv.t == JV::Num) last_num[path] = nv.d; else last_num.erase(path);
+			  params.set("value", nv); }
+			msg = request("change", params);
 		} else if (k == "set" || k == "call") {
 			std::string path = existing_path(k == "set", r.chance(0.1));
 			params.set("path", JV::str(path));
